@@ -391,6 +391,9 @@ func checkC15(c *Ctx) {
 
 	checkC15MapComplete(c, c.Rule("C15.map-complete", "scanIntoMap stores an entry for every column on every path of an iteration", 1))
 
+	// a reader chained on Count's result sees the caller's SELECT again (Count and Find agree on one chain)
+	checkCountRestores(c, c.Rule("C15.count-restore", "Count restores its temporary SELECT / ORDER BY changes on the statement it made them on", 2))
+
 	// ---- C15.cursor-group ----
 	// FindInBatches continues after the last key of a batch by adding `pk > ?` to the chain.  Like the
 	// soft-delete filter this restriction has to apply to the WHOLE user condition: with a lone OR unit in the
@@ -695,6 +698,7 @@ func checkC20(c *Ctx) {
 
 	checkC20Default(c)
 	checkC20NameAgree(c)
+	checkC20CreateAgree(c)
 
 	// ---- C20.guarded-add ----
 	rg := c.Rule("C20.guarded-add", "every additive DDL call in AutoMigrate is conditional on absence (and MigrateColumn on presence)", 6)
